@@ -15,7 +15,7 @@ MERGES = ["roundrobin", "bursty", "random", "nested", "random"]
 
 def build(tier, seed):
     thorough = tier == "thorough"
-    cases = [{"id": f"scene-{i}", "i": i} for i in range(1500 if thorough else 70)]
+    cases = [{"id": f"scene-{i}", "i": i} for i in range(6000 if thorough else 70)]
     for i in range(3 if thorough else 1):
         cases.append({"id": f"soak-{i}", "i": i, "soak": True})
 
